@@ -178,6 +178,17 @@ func (e *Engine) libModel(st *State, fr *Frame, instr ssa.Instruction, name stri
 		e.smt.Declare("rtypeOf", []string{SU}, SU)
 		st.assume(mkEq(res.L[2], mkApp("NumOut", mkApp("rtypeOf", args[0].term()))))
 		st.assume(mkNot(mkEq(res.L[0], "nil")))
+		// each returned Value has the corresponding result type of the called function
+		{
+			e.smt.Declare("OutT", []string{SU, SInt}, SU)
+			vt := e.flatten(resT.Underlying().(*types.Slice).Elem())
+			name := e.heapArrayName("E", resT.Underlying().(*types.Slice).Elem(), 0)
+			arr := e.heapArr(st, name, arraySort(SU, arraySort(SInt, vt[0].Sort)))
+			e.nq++
+			q := fmt.Sprintf("i!q%d", e.nq)
+			st.assume(fmt.Sprintf("(forall ((%s Int)) (=> (and (>= %s 0) (< %s %s)) (= (rtypeOf (select (select %s %s) (+ %s %s))) (OutT (rtypeOf %s) %s))))",
+				q, q, q, res.L[2], arr, res.L[0], res.L[1], q, args[0].term(), q))
+		}
 		k(st, res, false)
 		return true
 	}
